@@ -558,6 +558,196 @@ Section SolverProofs.
     rewrite E. simpl. split; [lia|]. split; [|congruence].
     rewrite P, Ht. f_equal. f_equal. destruct xs as [|y xs']; reflexivity.
   Qed.
+
+  (* ==================================================================
+     Two solver objects that hold the same option values, arguments and
+     position answer every later history identically.
+     ================================================================== *)
+  Definition Equiv (s1 s2 : solv) : Prop :=
+    Coh s1 /\ Coh s2 /\ (forall k, look (v_o s1) k = look (v_o s2) k) /\
+    v_args s1 = v_args s2 /\ pos s1 = pos s2.
+
+  Lemma equiv_meth (s1 s2 : solv) : (forall k, look (v_o s1) k = look (v_o s2) k) ->
+    meth (v_o s1) = meth (v_o s2).
+  Proof. intros H. rewrite !meth_look, (H 0%nat). reflexivity. Qed.
+
+  Lemma same_cfg_equiv (s1 s2 s1' s2' : solv) : Equiv s1 s2 -> same_cfg s1 s1' -> same_cfg s2 s2' ->
+    v_args s1' = v_args s2' -> pos s1' = pos s2' -> Equiv s1' s2'.
+  Proof.
+    intros (C1 & C2 & L & _ & _) H1 H2 Ha Hp.
+    split; [eapply same_cfg_coh; eassumption|]. split; [eapply same_cfg_coh; eassumption|].
+    destruct H1 as (E1 & _). destruct H2 as (E2 & _). rewrite E1, E2. auto.
+  Qed.
+
+  Lemma i_integrate_equiv (s1 s2 : solv) t : Equiv s1 s2 ->
+    snd (i_integrate s1 t) = snd (i_integrate s2 t) /\
+    Equiv (fst (i_integrate s1 t)) (fst (i_integrate s2 t)).
+  Proof.
+    intros HE. pose proof HE as (C1 & C2 & L & Ha & Hp).
+    pose proof (i_integrate_cfg s1 t) as G1. pose proof (i_integrate_cfg s2 t) as G2.
+    unfold pos in Hp. injection Hp as Hs Ht Hx.
+    unfold Model.C11_solver.i_integrate in *. rewrite <- Hx.
+    destruct (g_x (v_int s1)) as [x|] eqn:Ex; simpl in *.
+    - assert (Efl : flow (g_m (v_int s1)) (ilook X skey sdflt dflt (v_int s1)) (v_args s1)
+                         (g_t (v_int s1)) t x
+                  = flow (g_m (v_int s2)) (ilook X skey sdflt dflt (v_int s2)) (v_args s2)
+                         (g_t (v_int s2)) t x).
+      { destruct C1 as [A1 B1]. destruct C2 as [A2 B2].
+        rewrite A1, A2, <- (equiv_meth s1 s2 L), Ha, Ht. apply flow_ext. intros k Hk.
+        unfold ilook. rewrite B1 by (rewrite A1; exact Hk).
+        rewrite B2 by (rewrite A2, <- (equiv_meth s1 s2 L); exact Hk). apply L. }
+      split; [rewrite Efl; reflexivity|].
+      eapply (same_cfg_equiv s1 s2 _ _ HE); [repeat split|repeat split|exact Ha|].
+      unfold pos. simpl. rewrite Hs, Efl. reflexivity.
+    - split; [reflexivity|exact HE].
+  Qed.
+
+  Lemma i_set_equiv (s1 s2 : solv) t x : Equiv s1 s2 -> Equiv (i_set s1 t x) (i_set s2 t x).
+  Proof.
+    intros HE. pose proof HE as (_ & _ & _ & Ha & _).
+    eapply same_cfg_equiv; [exact HE|apply i_set_cfg|apply i_set_cfg|exact Ha|reflexivity].
+  Qed.
+
+  Lemma argument_equiv (s1 s2 : solv) a : Equiv s1 s2 -> Equiv (argument s1 a) (argument s2 a).
+  Proof.
+    intros HE. pose proof HE as (_ & _ & _ & Ha & Hp).
+    eapply same_cfg_equiv; [exact HE|apply argument_cfg|apply argument_cfg| |];
+      destruct a; simpl; auto.
+  Qed.
+
+  Lemma run_times_equiv tl : forall s1 s2, Equiv s1 s2 ->
+    snd (run_times s1 tl) = snd (run_times s2 tl) /\
+    Equiv (fst (run_times s1 tl)) (fst (run_times s2 tl)).
+  Proof.
+    induction tl as [|t r IH]; intros s1 s2 HE; simpl; [split; [reflexivity|exact HE]|].
+    destruct (i_integrate_equiv s1 s2 t HE) as [E1 E2].
+    destruct (i_integrate s1 t) as [a1 [x1|]]; destruct (i_integrate s2 t) as [a2 [x2|]];
+      simpl in *; try discriminate.
+    - injection E1 as <-. destruct (IH a1 a2 E2) as [F1 F2].
+      destruct (run_times a1 r) as [b1 xs1]. destruct (run_times a2 r) as [b2 xs2]. simpl in *.
+      split; [rewrite F1; reflexivity|exact F2].
+    - split; [reflexivity|exact E2].
+  Qed.
+
+  Lemma set_options_outcome_ext (s1 s2 : solv) d : NoDup (map fst d) ->
+    (forall k, look (v_o s1) k = look (v_o s2) k) ->
+    snd (set_options s1 d) = snd (set_options s2 d).
+  Proof.
+    intros HN L. pose proof (equiv_meth s1 s2 L) as Hm.
+    unfold Model.C11_solver.set_options.
+    assert (Ef : find 0 (new_solver (v_o s1) d) = find 0 (new_solver (v_o s2) d)).
+    { rewrite !(find_new_solver _ d 0 HN), Hm, (L 0%nat). reflexivity. }
+    rewrite Ef, Hm.
+    destruct (negb (valid_m _)); [reflexivity|].
+    destruct (existsb _ d); [reflexivity|].
+    destruct (new_solver (v_o s1) d); [destruct (new_ode (v_o s1) _ d)|];
+      (destruct (new_solver (v_o s2) d); [destruct (new_ode (v_o s2) _ d)|]); reflexivity.
+  Qed.
+
+  Lemma spec_look_ext o1 o2 d k : (forall j, look o1 j = look o2 j) ->
+    spec_look o1 d k = spec_look o2 d k.
+  Proof.
+    intros L. assert (Hm : meth o1 = meth o2) by (rewrite !meth_look, (L 0%nat); reflexivity).
+    unfold spec_look, d_method. rewrite Hm, (L k). reflexivity.
+  Qed.
+
+  Lemma set_options_err_same s d s' : set_options s d = (s', Err) -> s' = s.
+  Proof.
+    unfold Model.C11_solver.set_options.
+    destruct (negb (valid_m _)); [intros H; injection H as <-; reflexivity|].
+    destruct (existsb _ d); [intros H; injection H as <-; reflexivity|].
+    destruct (new_solver (v_o s) d); [destruct (new_ode (v_o s) _ d)|]; discriminate.
+  Qed.
+
+  Lemma set_item_err_same s k v s' : good_sop (SItem k v) -> set_item s k v = (s', Err) -> s' = s.
+  Proof.
+    intros Hg. unfold Model.C11_solver.set_item.
+    destruct (negb (skey k || supports (meth (v_o s)) k)); [intros H; injection H as <-; reflexivity|].
+    destruct (valof (meth (v_o s)) k v =? look (v_o s) k); [discriminate|].
+    destruct (Nat.eqb k 0) eqn:Ek.
+    - apply Nat.eqb_eq in Ek. subst k. destruct v as [z|]; simpl in *.
+      + rewrite Hg. simpl. discriminate.
+      + unfold Model.C11_solver.valof. rewrite skey0, valid_default. simpl. discriminate.
+    - destruct (supports (g_m (v_int s)) k); discriminate.
+  Qed.
+
+  Lemma set_item_outcome_ext (s1 s2 : solv) k v : Equiv s1 s2 ->
+    snd (set_item s1 k v) = snd (set_item s2 k v).
+  Proof.
+    intros ([A1 _] & [A2 _] & L & _ & _). pose proof (equiv_meth s1 s2 L) as Hm.
+    unfold Model.C11_solver.set_item. rewrite Hm, (L k).
+    destruct (negb (skey k || supports (meth (v_o s2)) k)); [reflexivity|].
+    destruct (valof (meth (v_o s2)) k v =? look (v_o s2) k); [reflexivity|].
+    destruct (Nat.eqb k 0); [destruct (negb (valid_m _)); reflexivity|].
+    rewrite A1, A2, Hm. destruct (supports (meth (v_o s2)) k); reflexivity.
+  Qed.
+
+  Lemma item_look_ext o1 o2 k v j : (forall i, look o1 i = look o2 i) ->
+    item_look o1 k v j = item_look o2 k v j.
+  Proof.
+    intros L. assert (Hm : meth o1 = meth o2) by (rewrite !meth_look, (L 0%nat); reflexivity).
+    unfold item_look. rewrite Hm, (L k), (L j). reflexivity.
+  Qed.
+
+  Theorem do_sop_equiv (s1 s2 : solv) o : good_sop o -> Equiv s1 s2 ->
+    snd (do_sop s1 o) = snd (do_sop s2 o) /\ Equiv (fst (do_sop s1 o)) (fst (do_sop s2 o)).
+  Proof.
+    intros Hg HE. pose proof HE as (C1 & C2 & L & Ha & Hp).
+    destruct o as [d|k v|x t0|t a|x0 t0 tl a].
+    - (* options = d *)
+      pose proof (set_options_outcome_ext s1 s2 d Hg L) as Ho.
+      destruct (options_keep_position s1 (SOpts d) (or_introl (ex_intro _ d eq_refl))) as [P1 Q1].
+      destruct (options_keep_position s2 (SOpts d) (or_introl (ex_intro _ d eq_refl))) as [P2 Q2].
+      simpl in *. destruct (set_options s1 d) as [a1 r1] eqn:E1.
+      destruct (set_options s2 d) as [a2 r2] eqn:E2. simpl in *. subst r2.
+      split; [reflexivity|]. destruct r1.
+      + destruct (set_options_spec s1 d a1 Hg E1) as [_ S1].
+        destruct (set_options_spec s2 d a2 Hg E2) as [_ S2].
+        split; [exact (set_options_coh s1 d a1 Hg C1 E1)|]. split; [exact (set_options_coh s2 d a2 Hg C2 E2)|].
+        split; [intros k; rewrite S1, S2; apply spec_look_ext; exact L|].
+        split; congruence.
+      + rewrite (set_options_err_same s1 d a1 E1), (set_options_err_same s2 d a2 E2). exact HE.
+    - (* options[k] = v *)
+      pose proof (set_item_outcome_ext s1 s2 k v HE) as Ho.
+      destruct (options_keep_position s1 (SItem k v) (or_intror (ex_intro _ k (ex_intro _ v eq_refl)))) as [P1 Q1].
+      destruct (options_keep_position s2 (SItem k v) (or_intror (ex_intro _ k (ex_intro _ v eq_refl)))) as [P2 Q2].
+      simpl in *. destruct (set_item s1 k v) as [a1 r1] eqn:E1.
+      destruct (set_item s2 k v) as [a2 r2] eqn:E2. simpl in *. subst r2.
+      split; [reflexivity|]. destruct r1.
+      + destruct (set_item_spec s1 k v a1 E1 C1) as [D1 S1].
+        destruct (set_item_spec s2 k v a2 E2 C2) as [D2 S2].
+        split; [exact D1|]. split; [exact D2|].
+        split; [intros j; rewrite S1, S2; apply item_look_ext; exact L|].
+        split; congruence.
+      + rewrite (set_item_err_same s1 k v a1 Hg E1), (set_item_err_same s2 k v a2 Hg E2). exact HE.
+    - (* start *)
+      simpl. split; [reflexivity|]. apply i_set_equiv. exact HE.
+    - (* step *)
+      simpl. unfold Model.C11_solver.step.
+      assert (Hs : g_set (v_int s1) = g_set (v_int s2)) by (unfold pos in Hp; congruence).
+      rewrite Hs. destruct (negb (g_set (v_int s2))); [split; [reflexivity|exact HE]|].
+      destruct (i_integrate_equiv _ _ t (argument_equiv s1 s2 a HE)) as [F1 F2].
+      destruct (i_integrate (argument s1 a) t) as [b1 [y1|]];
+        destruct (i_integrate (argument s2 a) t) as [b2 [y2|]]; simpl in *; try discriminate.
+      + injection F1 as <-. split; [reflexivity|exact F2].
+      + split; [reflexivity|exact F2].
+    - (* run *)
+      simpl. unfold Model.C11_solver.run.
+      destruct (run_times_equiv tl _ _ (argument_equiv _ _ a (i_set_equiv s1 s2 t0 x0 HE))) as [F1 F2].
+      destruct (run_times (argument (i_set s1 t0 x0) a) tl) as [b1 xs1].
+      destruct (run_times (argument (i_set s2 t0 x0) a) tl) as [b2 xs2]. simpl in *.
+      split; [rewrite F1; reflexivity|exact F2].
+  Qed.
+
+  Notation sanswers := (sanswers X A skey sdflt supports dflt valid_m nkeys flow).
+
+  Theorem sanswers_equiv ops : forall s1 s2, Forall good_sop ops -> Equiv s1 s2 ->
+    sanswers s1 ops = sanswers s2 ops.
+  Proof.
+    induction ops as [|o r IH]; intros s1 s2 HG HE; simpl; [reflexivity|].
+    inversion HG; subst. destruct (do_sop_equiv s1 s2 o H1 HE) as [E1 E2].
+    rewrite E1. f_equal. apply IH; assumption.
+  Qed.
 End SolverProofs.
 
 (* ---------------------------------------------- the executable instance *)
